@@ -1,5 +1,5 @@
 //@unit monitor_changes
-//@props C14
+//@props C14 C15
 // Contracts on the change algebra of the channel monitor (vls-core/src/monitor.rs):
 // apply_forward_change / apply_backward_change / on_add_block_end / on_remove_block_end.
 // R7 exception (C14 "never aborts"): unwrap / assert stay proof obligations in these functions.
@@ -176,13 +176,15 @@ impl State {
         }
 //@end
 
-//@fn vls-core/src/monitor.rs :: impl State :: on_remove_block_end props=C14 noabort
+//@fn vls-core/src/monitor.rs :: impl State :: on_remove_block_end props=C14,C15 noabort
     requires
         old(self).height >= 1,
         old(decode_state).block_hash == Some(*block_hash),
         bwd_chain_ok(st_abs(*old(self)), chs_abs(old(decode_state).changes@).reverse()),
     ensures
         st_abs(*final(self)) == remove_block_abs(st_abs(*old(self)), chs_abs(old(decode_state).changes@)),    //[C14.remove-block.exact]
+        // C15: a reorg never leaves the "closing swept" marker set while an output of the node is unspent again
+        marker_inv(st_abs(*old(self))) ==> marker_inv(st_abs(*final(self))),                                  //[C15.remove-block.marker-only-while-swept]
         st_frame(*final(self), *old(self)),
         final(decode_state).changes@.len() == 0,
 //@sub /if !\(\(decode_state\.block_hash\.as_ref\(\)\) == \(Some\(block_hash\)\)\) \{ vx_unreachable\(\); \}/ => if !(vx_opt_ref_eq(&decode_state.block_hash, block_hash)) { vx_unreachable(); }
@@ -213,6 +215,8 @@ impl State {
             assert(chs_abs(cs.skip(cs.len() as int)) =~= Seq::<ChAbs>::empty());
             lemma_chs_abs_reverse(old(decode_state).changes@);
         }
+//@proof before /^\s*\(adds, removes\)\s*$/
+        proof { if marker_inv(st_abs(*old(self))) { c15_marker_kept_by_remove_block(st_abs(*old(self)), chs_abs(old(decode_state).changes@)); } }
 //@end
 
 } // impl State
